@@ -5,7 +5,8 @@ import (
 	"fmt"
 	"os"
 	"path/filepath"
-	"sync"
+	"strings"
+	"time"
 
 	"github.com/cossacklabs/acra/keystore"
 	"github.com/cossacklabs/acra/keystore/filesystem"
@@ -17,102 +18,33 @@ import (
 // One v1 key-store handle shared by many goroutines (as AcraServer shares it between connections),
 // with cache sizes 1 (constant eviction), unlimited and off: every key returned must be the
 // complete, correct key of the generation history. Judged by a direct oracle (the Lean model of the
-// v1 store treats every cache operation as atomic, so its prediction is simply "the stored key");
-// data-race freedom itself is a runtime fact – build the harness with -race to monitor it.
+// v1 store treats every cache operation as atomic, so its prediction is simply "the stored key").
+// The workload (package v1race, op `C17.v1race`) runs in a child process: a cache whose locking is
+// broken can crash the Go runtime (concurrent map writes), which must be a failure of the property,
+// not of the harness. Data-race freedom itself is monitored by the race-detector run (v1race.go).
 func runV1Shared(r *core.Run) {
 	rd := r.Rand.Fork()
+	workers, clients := 8, 4
+	iters := r.N(60, 1500)
 	for _, cacheSize := range []int{1, keystore.InfiniteCacheSize, keystore.WithoutCache} {
-		tmp, err := os.MkdirTemp("", "verif-c17v1-")
-		if err != nil {
-			panic("harness: " + err.Error())
-		}
-		dir := filepath.Join(tmp, "ks")
-		os.MkdirAll(dir, 0o700)
-		enc, _ := keystore.NewSCellKeyEncryptor([]byte("c17-v1-master-key-0123456789abcd"))
-		ks, err := filesystem.NewFileSystemKeyStoreWithCacheSize(dir, enc, cacheSize)
-		if err != nil {
-			panic("harness: " + err.Error())
-		}
-		ids := []string{"client_a", "client_b", "client_c", "client_d"}
-		type expect struct{ sym, hmac, priv, pub []byte }
-		want := map[string]*expect{}
-		for _, id := range ids {
-			must(ks.GenerateDataEncryptionKeys([]byte(id)))
-			must(ks.GenerateClientIDSymmetricKey([]byte(id)))
-			must(ks.GenerateHmacKey([]byte(id)))
-		}
-		// expectations are read through a second, cache-less handle on the same directory
-		ref, err := filesystem.NewFileSystemKeyStoreWithCacheSize(dir, enc, keystore.WithoutCache)
-		if err != nil {
-			panic("harness: " + err.Error())
-		}
-		for _, id := range ids {
-			e := &expect{}
-			e.sym, _ = ref.GetClientIDSymmetricKey([]byte(id))
-			e.hmac, _ = ref.GetHMACSecretKey([]byte(id))
-			p, _ := ref.GetServerDecryptionPrivateKey([]byte(id))
-			e.priv = append([]byte{}, p.Value...)
-			q, _ := ref.GetClientIDEncryptionPublicKey([]byte(id))
-			e.pub = append([]byte{}, q.Value...)
-			want[id] = e
-		}
-		workers := 8
-		iters := r.N(60, 1500)
-		var mu sync.Mutex
-		var bad []string
-		var wg sync.WaitGroup
-		seeds := make([]*core.Rand, workers)
-		for i := range seeds {
-			seeds[i] = rd.Fork()
-		}
-		for wk := 0; wk < workers; wk++ {
-			wg.Add(1)
-			go func(wk int) {
-				defer wg.Done()
-				lr := seeds[wk]
-				for it := 0; it < iters; it++ {
-					id := core.Pick(lr, ids)
-					e := want[id]
-					var got, exp []byte
-					var err error
-					what := ""
-					switch lr.Intn(4) {
-					case 0:
-						got, err = ks.GetClientIDSymmetricKey([]byte(id))
-						exp, what = e.sym, "symmetric"
-					case 1:
-						got, err = ks.GetHMACSecretKey([]byte(id))
-						exp, what = e.hmac, "hmac"
-					case 2:
-						p, e2 := ks.GetServerDecryptionPrivateKey([]byte(id))
-						err = e2
-						if p != nil {
-							got = p.Value
-						}
-						exp, what = e.priv, "private"
-					default:
-						p, e2 := ks.GetClientIDEncryptionPublicKey([]byte(id))
-						err = e2
-						if p != nil {
-							got = p.Value
-						}
-						exp, what = e.pub, "public"
-					}
-					if err != nil || !bytes.Equal(got, exp) {
-						mu.Lock()
-						bad = append(bad, fmt.Sprintf("%s key of %s: err=%v got %x want %x", what, id, err, got, exp))
-						mu.Unlock()
-					}
-				}
-			}(wk)
-		}
-		wg.Wait()
+		line := fmt.Sprintf("C17.v1race %d %d %d %d %d %d", rd.U64()%1000000, workers, cacheSize, clients, iters, 60000)
 		r.Begin(fmt.Sprintf("v1shared:cache%d", cacheSize), true, "mode:v1-shared")
 		r.Tag(fmt.Sprintf("v1-shared-reads:%d", workers*iters))
-		if len(bad) > 0 {
-			r.Fail("v1-concurrent-read", fmt.Sprintf("shared v1 key store (cache size %d) returned a wrong or incomplete key under concurrency: %s (+%d more)", cacheSize, bad[0], len(bad)-1))
-		}
-		os.RemoveAll(tmp)
+		judgeV1(r, r.ImplIsolated(line, 120*time.Second), cacheSize)
+	}
+}
+
+// judgeV1 judges the outcome of one `C17.v1race` execution without the race detector.
+func judgeV1(r *core.Run, out string, cacheSize int) {
+	switch {
+	case strings.HasPrefix(out, "ok "):
+	case strings.HasPrefix(out, "bad "):
+		r.Fail("v1-concurrent-read", fmt.Sprintf("shared v1 key store (cache size %d) returned a wrong or incomplete key under concurrency: %s", cacheSize, out))
+	case strings.HasPrefix(out, "harness-error"):
+		panic("harness: v1 shared-handle workload: " + out)
+	default:
+		// "panic" (the child died: Go runtime fatal error or unrecovered panic), "timeout", "oom"
+		r.Fail("v1-shared-handle-crash", fmt.Sprintf("the process using one shared v1 key store (cache size %d) from many goroutines crashed or hung: outcome %q", cacheSize, out))
 	}
 }
 
